@@ -169,7 +169,7 @@ package flows
 //@   ensures[no-bridges-keeps-root] (result1 == nil && len(certParams.Bridges) == 0) ==> result0.NewLocalExitRoot == result0.PrevLocalExitRoot
 //@   ensures[root-after-last-bridge] (result1 == nil && len(certParams.Bridges) > 0) ==> result0.NewLocalExitRoot == exitRootAt[certParams.Bridges[len(certParams.Bridges) - 1].DepositCount]
 //@   ensures[exits] result1 == nil ==> len(result0.BridgeExits) == len(certParams.Bridges) && forall(k, 0, len(certParams.Bridges), result0.BridgeExits[k] != nil && result0.BridgeExits[k].TokenInfo != nil && result0.BridgeExits[k].LeafType == certParams.Bridges[k].LeafType && result0.BridgeExits[k].TokenInfo.OriginNetwork == certParams.Bridges[k].OriginNetwork && result0.BridgeExits[k].TokenInfo.OriginTokenAddress == certParams.Bridges[k].OriginAddress && result0.BridgeExits[k].DestinationNetwork == certParams.Bridges[k].DestinationNetwork && result0.BridgeExits[k].DestinationAddress == certParams.Bridges[k].DestinationAddress && result0.BridgeExits[k].Amount == certParams.Bridges[k].Amount)
-//@   ensures[imported-exits] result1 == nil ==> len(result0.ImportedBridgeExits) == len(certParams.Claims) && forall(k, 0, len(certParams.Claims), result0.ImportedBridgeExits[k] != nil && result0.ImportedBridgeExits[k].BridgeExit != nil && result0.ImportedBridgeExits[k].BridgeExit.TokenInfo != nil && result0.ImportedBridgeExits[k].BridgeExit.LeafType == ite(certParams.Claims[k].IsMessage, 1, 0) && result0.ImportedBridgeExits[k].BridgeExit.TokenInfo.OriginNetwork == certParams.Claims[k].OriginNetwork && result0.ImportedBridgeExits[k].BridgeExit.TokenInfo.OriginTokenAddress == certParams.Claims[k].OriginAddress && result0.ImportedBridgeExits[k].BridgeExit.DestinationNetwork == certParams.Claims[k].DestinationNetwork && result0.ImportedBridgeExits[k].BridgeExit.DestinationAddress == certParams.Claims[k].DestinationAddress && result0.ImportedBridgeExits[k].BridgeExit.Amount == certParams.Claims[k].Amount)
+//@   ensures[imported-exits] result1 == nil ==> len(result0.ImportedBridgeExits) == len(certParams.Claims) && forall(k, 0, len(certParams.Claims), result0.ImportedBridgeExits[k] != nil && result0.ImportedBridgeExits[k].BridgeExit != nil && result0.ImportedBridgeExits[k].BridgeExit.TokenInfo != nil && result0.ImportedBridgeExits[k].GlobalIndex != nil && result0.ImportedBridgeExits[k].BridgeExit.LeafType == ite(certParams.Claims[k].IsMessage, 1, 0) && result0.ImportedBridgeExits[k].BridgeExit.TokenInfo.OriginNetwork == certParams.Claims[k].OriginNetwork && result0.ImportedBridgeExits[k].BridgeExit.TokenInfo.OriginTokenAddress == certParams.Claims[k].OriginAddress && result0.ImportedBridgeExits[k].BridgeExit.DestinationNetwork == certParams.Claims[k].DestinationNetwork && result0.ImportedBridgeExits[k].BridgeExit.DestinationAddress == certParams.Claims[k].DestinationAddress && result0.ImportedBridgeExits[k].BridgeExit.Amount == certParams.Claims[k].Amount)
 //@   ensures[metadata-encodes-range] result1 == nil ==> hb(result0.Metadata)[0] == 2 && beVal(hb(result0.Metadata), 1, 8) == certParams.FromBlock && beVal(hb(result0.Metadata), 9, 4) == (certParams.ToBlock - certParams.FromBlock + 18446744073709551616) % 4294967296 && beVal(hb(result0.Metadata), 13, 4) == certParams.CreatedAt && hb(result0.Metadata)[17] == certParams.CertificateType
 //@   ensures[leaf-count] result1 == nil ==> result0.L1InfoTreeLeafCount == certParams.L1InfoTreeLeafCount
 
@@ -288,3 +288,54 @@ package flows
 //@   ensures[never-empty] (result1 == nil && result0 != nil) ==> (len(result0.Bridges) > 0 || len(result0.Claims) > 0 || p.maxL2BlockLimiter != nil)
 //@   ensures[range-starts-where-the-chain-continues] (result1 == nil && result0 != nil && storedLastCert != nil && storedLastCert.Status != agglayertypes.InError) ==> result0.FromBlock == storedLastCert.ToBlock + 1
 //@   ensures[retry-keeps-first-block] (result1 == nil && result0 != nil && result0.RetryCount > 0 && result0.LastSentCertificate != nil) ==> result0.FromBlock == result0.LastSentCertificate.FromBlock
+
+// ---- the FEP (aggchain prover) flow ----------------------------------------------------------------------------
+// signing (C10, second scheme): the configured signer signs exactly the FEP commitment of the certificate that is
+// returned (new exit root, the chain of (global index ‖ exit leaf) chunks of the imported exits, the height, the
+// aggchain parameters), only the signature slot of the aggchain proof data is written, and a certificate whose
+// aggchain data is of another kind is refused before anything is signed
+//@ func (a *AggchainProverFlow) signCertificate
+//@   props C10
+//@   requires a != nil && a.certificateSigner != nil && a.log != nil && cert != nil
+//@   requires typeIs(cert.AggchainData, *agglayertypes.AggchainDataProof) ==> cast(cert.AggchainData, *agglayertypes.AggchainDataProof) != nil
+//@   requires forall(k, 0, len(cert.ImportedBridgeExits), cert.ImportedBridgeExits[k] != nil && cert.ImportedBridgeExits[k].BridgeExit != nil && cert.ImportedBridgeExits[k].BridgeExit.TokenInfo != nil && cert.ImportedBridgeExits[k].BridgeExit.Amount != nil && cert.ImportedBridgeExits[k].GlobalIndex != nil && 0 <= bigval(cert.ImportedBridgeExits[k].BridgeExit.Amount) && bigval(cert.ImportedBridgeExits[k].BridgeExit.Amount) < 115792089237316195423570985008687907853269984665640564039457584007913129639936)
+//@   modifies cast(cert.AggchainData, *agglayertypes.AggchainDataProof).Signature, signedHash, signCalls, fepChunks
+//@   ensures[other-aggchain-data-refused-unsigned] !typeIs(cert.AggchainData, *agglayertypes.AggchainDataProof) ==> result1 != nil && signCalls == old(signCalls)
+//@   ensures[signed-once] typeIs(cert.AggchainData, *agglayertypes.AggchainDataProof) ==> signCalls == old(signCalls) + 1
+//@   ensures[error-means-nothing] result1 != nil ==> result0 == nil
+//@   ensures[same-certificate] result1 == nil ==> result0 == cert
+//@   ensures[signs-the-commitment-of-the-final-content] typeIs(cert.AggchainData, *agglayertypes.AggchainDataProof) ==> signedHash == keccak(catB(catB(catB(catB(emptyB(), bytesOf(hb(cert.NewLocalExitRoot), 32)), bytesOf(hb(keccak(chainB(fepChunks, len(cert.ImportedBridgeExits)))), 32)), leNB(cert.Height, 8)), bytesOf(hb(cast(cert.AggchainData, *agglayertypes.AggchainDataProof).AggchainParams), 32)))
+//@   ensures[chunks-commit-to-index-and-exit] typeIs(cert.AggchainData, *agglayertypes.AggchainDataProof) ==> forall(k, 0, len(cert.ImportedBridgeExits), fepChunks[k] == catB(catB(emptyB(), leB(giVal(cert.ImportedBridgeExits[k].GlobalIndex.MainnetFlag, cert.ImportedBridgeExits[k].GlobalIndex.RollupIndex, cert.ImportedBridgeExits[k].GlobalIndex.LeafIndex))), bytesOf(hb(exitLeafValue(cert.ImportedBridgeExits[k].BridgeExit.LeafType, cert.ImportedBridgeExits[k].BridgeExit.TokenInfo.OriginNetwork, cert.ImportedBridgeExits[k].BridgeExit.TokenInfo.OriginTokenAddress, cert.ImportedBridgeExits[k].BridgeExit.DestinationNetwork, cert.ImportedBridgeExits[k].BridgeExit.DestinationAddress, bigval(cert.ImportedBridgeExits[k].BridgeExit.Amount), ite(len(cert.ImportedBridgeExits[k].BridgeExit.Metadata) == 0, bytesOf(hb(keccak(emptyB())), 32), bytesOf(seq(cert.ImportedBridgeExits[k].BridgeExit.Metadata), len(cert.ImportedBridgeExits[k].BridgeExit.Metadata))))), 32)))
+//@   ensures[signature-attached] result1 == nil ==> typeIs(cert.AggchainData, *agglayertypes.AggchainDataProof) && seq(cast(cert.AggchainData, *agglayertypes.AggchainDataProof).Signature) == sigOf(signedHash)
+
+// building (C10, C03): the certificate comes from the base flow's builder (its proved contract), the aggchain data
+// and the custom chain data are copied from the prover's answer BEFORE signing, and nothing covered by the
+// commitment is written after the signer was called
+//@ func (a *AggchainProverFlow) BuildCertificate
+//@   props C10 C03
+//@   requires a != nil && a.certificateSigner != nil && a.log != nil && buildParams != nil && buildParams.AggchainProof != nil && buildParams.AggchainProof.SP1StarkProof != nil
+//@   requires a.baseFlow != nil && typeIs(a.baseFlow, *baseFlow) && cast(a.baseFlow, *baseFlow).log != nil && cast(a.baseFlow, *baseFlow).l1InfoTreeDataQuerier != nil && cast(a.baseFlow, *baseFlow).l2BridgeQuerier != nil && cast(a.baseFlow, *baseFlow).lerQuerier != nil && cast(a.baseFlow, *baseFlow).storage != nil
+//@   requires buildParams.LastSentCertificate != nil ==> buildParams.LastSentCertificate.Height < 18446744073709551615
+//@   requires forall(k, 0, len(buildParams.Claims), buildParams.Claims[k].GlobalIndex != nil && buildParams.Claims[k].Amount != nil && 0 <= bigval(buildParams.Claims[k].Amount) && bigval(buildParams.Claims[k].Amount) < 115792089237316195423570985008687907853269984665640564039457584007913129639936)
+//@   modifies signedHash, signCalls, fepChunks
+//@   ensures[error-means-nothing] result1 != nil ==> result0 == nil
+//@   ensures[signed-at-most-once] signCalls <= old(signCalls) + 1 && (result1 == nil ==> signCalls == old(signCalls) + 1)
+//@   ensures[aggchain-data-from-the-prover] result1 == nil ==> result0 != nil && typeIs(result0.AggchainData, *agglayertypes.AggchainDataProof) && cast(result0.AggchainData, *agglayertypes.AggchainDataProof).AggchainParams == buildParams.AggchainProof.AggchainParams && cast(result0.AggchainData, *agglayertypes.AggchainDataProof).Proof == buildParams.AggchainProof.SP1StarkProof.Proof && cast(result0.AggchainData, *agglayertypes.AggchainDataProof).Version == buildParams.AggchainProof.SP1StarkProof.Version && cast(result0.AggchainData, *agglayertypes.AggchainDataProof).Vkey == buildParams.AggchainProof.SP1StarkProof.Vkey && cast(result0.AggchainData, *agglayertypes.AggchainDataProof).Context == buildParams.AggchainProof.Context && result0.CustomChainData == buildParams.AggchainProof.CustomChainData
+//@   ensures[signs-the-commitment-of-the-final-content] result1 == nil ==> signedHash == keccak(catB(catB(catB(catB(emptyB(), bytesOf(hb(result0.NewLocalExitRoot), 32)), bytesOf(hb(keccak(chainB(fepChunks, len(result0.ImportedBridgeExits)))), 32)), leNB(result0.Height, 8)), bytesOf(hb(cast(result0.AggchainData, *agglayertypes.AggchainDataProof).AggchainParams), 32))) && forall(k, 0, len(result0.ImportedBridgeExits), fepChunks[k] == catB(catB(emptyB(), leB(giVal(result0.ImportedBridgeExits[k].GlobalIndex.MainnetFlag, result0.ImportedBridgeExits[k].GlobalIndex.RollupIndex, result0.ImportedBridgeExits[k].GlobalIndex.LeafIndex))), bytesOf(hb(exitLeafValue(result0.ImportedBridgeExits[k].BridgeExit.LeafType, result0.ImportedBridgeExits[k].BridgeExit.TokenInfo.OriginNetwork, result0.ImportedBridgeExits[k].BridgeExit.TokenInfo.OriginTokenAddress, result0.ImportedBridgeExits[k].BridgeExit.DestinationNetwork, result0.ImportedBridgeExits[k].BridgeExit.DestinationAddress, bigval(result0.ImportedBridgeExits[k].BridgeExit.Amount), ite(len(result0.ImportedBridgeExits[k].BridgeExit.Metadata) == 0, bytesOf(hb(keccak(emptyB())), 32), bytesOf(seq(result0.ImportedBridgeExits[k].BridgeExit.Metadata), len(result0.ImportedBridgeExits[k].BridgeExit.Metadata))))), 32)))
+//@   ensures[signature-attached] result1 == nil ==> seq(cast(result0.AggchainData, *agglayertypes.AggchainDataProof).Signature) == sigOf(signedHash)
+//@   ensures[built-by-the-base-flow] result1 == nil ==> result0.L1InfoTreeLeafCount == buildParams.L1InfoTreeLeafCount && len(result0.BridgeExits) == len(buildParams.Bridges) && len(result0.ImportedBridgeExits) == len(buildParams.Claims) && ((len(buildParams.Bridges) > 0) ==> result0.NewLocalExitRoot == exitRootAt[buildParams.Bridges[len(buildParams.Bridges) - 1].DepositCount]) && ((len(buildParams.Bridges) == 0) ==> result0.NewLocalExitRoot == result0.PrevLocalExitRoot)
+
+// the PP flow builds with the same builder (empty certificates refused) and signs the PP commitment
+//@ func (p *PPFlow) BuildCertificate
+//@   props C10 C03
+//@   requires p != nil && p.signer != nil && p.log != nil && buildParams != nil
+//@   requires p.baseFlow != nil && typeIs(p.baseFlow, *baseFlow) && cast(p.baseFlow, *baseFlow).log != nil && cast(p.baseFlow, *baseFlow).l1InfoTreeDataQuerier != nil && cast(p.baseFlow, *baseFlow).l2BridgeQuerier != nil && cast(p.baseFlow, *baseFlow).lerQuerier != nil && cast(p.baseFlow, *baseFlow).storage != nil
+//@   requires buildParams.LastSentCertificate != nil ==> buildParams.LastSentCertificate.Height < 18446744073709551615
+//@   requires forall(k, 0, len(buildParams.Claims), buildParams.Claims[k].GlobalIndex != nil && buildParams.Claims[k].Amount != nil && 0 <= bigval(buildParams.Claims[k].Amount) && bigval(buildParams.Claims[k].Amount) < 115792089237316195423570985008687907853269984665640564039457584007913129639936)
+//@   modifies signedHash, signCalls, ppChunks
+//@   ensures[error-means-nothing] result1 != nil ==> result0 == nil
+//@   ensures[empty-refused] (len(buildParams.Bridges) == 0 && len(buildParams.Claims) == 0) ==> result1 != nil && signCalls == old(signCalls)
+//@   ensures[signed-at-most-once] signCalls <= old(signCalls) + 1 && (result1 == nil ==> signCalls == old(signCalls) + 1)
+//@   ensures[signs-the-commitment-of-the-final-content] result1 == nil ==> result0 != nil && signedHash == keccak(catB(catB(emptyB(), bytesOf(hb(result0.NewLocalExitRoot), 32)), bytesOf(hb(keccak(chainH(ppChunks, len(result0.ImportedBridgeExits)))), 32))) && forall(k, 0, len(result0.ImportedBridgeExits), ppChunks[k] == keccak(catB(emptyB(), leB(giVal(result0.ImportedBridgeExits[k].GlobalIndex.MainnetFlag, result0.ImportedBridgeExits[k].GlobalIndex.RollupIndex, result0.ImportedBridgeExits[k].GlobalIndex.LeafIndex)))))
+//@   ensures[signature-attached] result1 == nil ==> typeIs(result0.AggchainData, *agglayertypes.AggchainDataSignature) && seq(cast(result0.AggchainData, *agglayertypes.AggchainDataSignature).Signature) == sigOf(signedHash)
+//@   ensures[built-by-the-base-flow] result1 == nil ==> result0.L1InfoTreeLeafCount == buildParams.L1InfoTreeLeafCount && len(result0.BridgeExits) == len(buildParams.Bridges) && len(result0.ImportedBridgeExits) == len(buildParams.Claims) && ((len(buildParams.Bridges) > 0) ==> result0.NewLocalExitRoot == exitRootAt[buildParams.Bridges[len(buildParams.Bridges) - 1].DepositCount]) && ((len(buildParams.Bridges) == 0) ==> result0.NewLocalExitRoot == result0.PrevLocalExitRoot)
